@@ -61,6 +61,9 @@ pub fn all() -> Vec<(&'static str, Blueprint)> {
         ("v22_state_arrays", v22_state_arrays()),
         ("v23_unions", v23_unions()),
         ("x28_config_key_keyword", x28_config_key_keyword()),
+        ("x29_included_fragment", x29_included_fragment()),
+        ("x30_nested_override_cycle", x30_nested_override_cycle()),
+        ("x31_unbounded_specialisation", x31_unbounded_specialisation()),
     ]
 }
 
@@ -638,5 +641,35 @@ pub fn x28_config_key_keyword() -> Blueprint {
     bp.import(from![pavex]);
     bp.config(bad::keyword::KEYWORD_CONFIG);
     bp.route(bad::keyword::NEEDS_KEYWORD_CONFIG);
+    bp
+}
+
+/// An invalid blueprint (a prefix without a leading slash) built in a file that is pulled in with
+/// `include!` and is not a complete Rust source file: the diagnostic wants a snippet from it.
+pub fn x29_included_fragment() -> Blueprint {
+    include!("x29_body.rs")
+}
+
+/// A transient cycle that exists only through the nested blueprint's constructor override.
+pub fn x30_nested_override_cycle() -> Blueprint {
+    let mut bp = Blueprint::new();
+    bp.import(from![pavex]);
+    bp.constructor(bad::nested_cycle::NC_A);
+    bp.constructor(bad::nested_cycle::NC_B_PARENT);
+    bp.nest({
+        let mut bp = Blueprint::new();
+        bp.constructor(bad::nested_cycle::NC_B_NESTED);
+        bp.route(bad::nested_cycle::NC_HANDLER);
+        bp
+    });
+    bp
+}
+
+/// A generic constructor that can only be specialised by specialising itself for a bigger type.
+pub fn x31_unbounded_specialisation() -> Blueprint {
+    let mut bp = Blueprint::new();
+    bp.import(from![pavex]);
+    bp.constructor(bad::unbounded::UB_F);
+    bp.route(bad::unbounded::UB_HANDLER);
     bp
 }
